@@ -188,17 +188,22 @@ BigSerChecks(e) ==
          << "bigser.total", (fits /\ e.r = "ok") => e.total = total /\ e.body_ok >>,
          << "bigser.cache", (ap.ok /\ Has(e, "cache")) => e.cache = total >> >>
 
-\* n-fold repetition: rlist = (item item ... item . tail), llist = (((tail . item) . item) ...)
+\* n-fold repetition: rlist = (item item ... item . tail), llist = (((tail . item) . item) ...),
+\* dbl = n doublings x -> (x . x) of item (a DAG in the allocator, 2^n leaves when expanded)
+RECURSIVE Dbl(_, _)
+Dbl(n, I) == IF n = 0 THEN I ELSE LET x == Dbl(n - 1, I) IN << 255 >> \o x \o x
 RepBytes(shape, n, I, T) ==
   LET w == 1 + Len(I)
-  IN  IF shape = "rlist"
+  IN  IF shape = "dbl" THEN Dbl(n, I)
+      ELSE IF shape = "rlist"
       THEN [i \in 1..(n * w + Len(T)) |->
               IF i <= n * w THEN (IF (i - 1) % w = 0 THEN 255 ELSE I[(i - 1) % w]) ELSE T[i - n * w]]
       ELSE [i \in 1..(n * w + Len(T)) |->
               IF i <= n THEN 255 ELSE IF i <= n + Len(T) THEN T[i - n] ELSE I[((i - n - Len(T) - 1) % Len(I)) + 1]]
 RECURSIVE RepTree(_, _, _, _)
 RepTree(shape, n, it, tl) ==
-  IF n = 0 THEN tl
+  IF shape = "dbl" THEN (IF n = 0 THEN it ELSE LET x == RepTree(shape, n - 1, it, tl) IN [f |-> x, r |-> x])
+  ELSE IF n = 0 THEN tl
   ELSE IF shape = "rlist" THEN [f |-> it, r |-> RepTree(shape, n - 1, it, tl)]
   ELSE [f |-> RepTree(shape, n - 1, it, tl), r |-> it]
 \* the closed form is Encode of the repeated tree (checked on small n for every rep event too)
